@@ -10,6 +10,8 @@
 //   ckvoff <n> E.. <n> N..  pdg(11|-11) Epost len v0 p0x p0y p0z t0 p1x p1y p1z <k> u..
 //   scgen  res yield <5m> (frac mean sigma rise fall)*m  t0 len charge v0 p0 v1 p1 nphot <k> u..
 //   scoff  res yield <5m> (...)*m  pdg Epost len edep v0 p0 t0 p1 <k> u..
+//   ckvchain / scchain: as ckvoff / scoff with <maxphot> before the stream: offload, then the generator on
+//            the distribution data the offload produced: "ok <dist...> | <exh> <n> photons..."
 // photon record: consumed energy px py pz dx dy dz ex ey ez time
 #include "../../../harness/common.hh"
 
@@ -166,7 +168,7 @@ void print_photon(std::ostream& os, std::size_t consumed, TrackInitializer const
 }
 
 template<class Gen>
-void run_photons(Gen& gen, size_type nphot, verif::ReplayEngine& rng)
+void run_photons(Gen& gen, size_type nphot, verif::ReplayEngine& rng, char const* prefix = "ok")
 {
     std::ostringstream os;
     size_type done = 0;
@@ -183,10 +185,10 @@ void run_photons(Gen& gen, size_type nphot, verif::ReplayEngine& rng)
     {
         exhausted = true;
     }
-    std::cout << "ok " << (exhausted ? 1 : 0) << " " << done << os.str() << "\n";
+    std::cout << prefix << " " << (exhausted ? 1 : 0) << " " << done << os.str() << "\n";
 }
 
-void print_dist(GeneratorDistributionData const& d, std::size_t consumed)
+void print_dist(GeneratorDistributionData const& d, std::size_t consumed, bool newline = true)
 {
     std::cout << "ok " << consumed << " " << d.num_photons << " "
               << (d ? 1 : 0) << " " << hex(d.time) << " " << hex(d.step_length)
@@ -195,7 +197,8 @@ void print_dist(GeneratorDistributionData const& d, std::size_t consumed)
     for (auto x : d.points[StepPoint::pre].pos) std::cout << " " << hex(x);
     std::cout << " " << hex(d.points[StepPoint::post].speed.value());
     for (auto x : d.points[StepPoint::post].pos) std::cout << " " << hex(x);
-    std::cout << "\n";
+    std::cout << " " << (d.material ? static_cast<int>(d.material.get()) : -1);
+    if (newline) std::cout << "\n";
 }
 }  // namespace
 
@@ -279,6 +282,89 @@ int main()
                 catch (verif::StreamExhausted const&)
                 {
                     // still report the post-step speed for the model
+                    std::cout << "exhausted " << hex(particle.speed().value())
+                              << "\n";
+                }
+            }
+            else if (kind == "ckvchain")
+            {   // CerenkovOffload -> CerenkovGenerator on the distribution data it produced
+                OptMat m = read_material(is);
+                int pdgnum;
+                is >> pdgnum;
+                double epost = rd(is);
+                double len = rd(is);
+                OffloadPreStepData pre;
+                pre.speed = units::LightSpeed{rd(is)};
+                pre.pos = rd3(is);
+                pre.time = rd(is);
+                pre.material = OpticalMaterialId{0};
+                Real3 pos = rd3(is);
+                size_type maxphot;
+                is >> maxphot;
+                verif::ReplayEngine rng(verif::rdvec(is));
+                opt::MaterialView mv{m.material->host_ref(), OpticalMaterialId{0}};
+                auto particle = tracks.particle(epost, pdgnum);
+                auto sim = tracks.sim(len);
+                CerenkovOffload off(
+                    particle, sim, mv, pos, m.cerenkov->host_ref(), pre);
+                try
+                {
+                    auto d = off(rng);
+                    print_dist(d, rng.consumed(), false);
+                    if (d)
+                    {
+                        CerenkovGenerator gen(mv, m.cerenkov->host_ref(), d);
+                        run_photons(gen, std::min(maxphot, d.num_photons), rng, " |");
+                    }
+                    else
+                    {
+                        std::cout << " | 0 0\n";
+                    }
+                }
+                catch (verif::StreamExhausted const&)
+                {
+                    std::cout << "exhausted " << hex(particle.speed().value())
+                              << "\n";
+                }
+            }
+            else if (kind == "scchain")
+            {   // ScintillationOffload -> ScintillationGenerator on the data it produced
+                auto sp = read_scint(is);
+                int pdgnum;
+                is >> pdgnum;
+                double epost = rd(is);
+                double len = rd(is);
+                double edep = rd(is);
+                OffloadPreStepData pre;
+                pre.speed = units::LightSpeed{rd(is)};
+                pre.pos = rd3(is);
+                pre.time = rd(is);
+                pre.material = OpticalMaterialId{0};
+                Real3 pos = rd3(is);
+                size_type maxphot;
+                is >> maxphot;
+                verif::ReplayEngine rng(verif::rdvec(is));
+                auto particle = tracks.particle(epost, pdgnum);
+                auto sim = tracks.sim(len);
+                ScintillationOffload off(particle, sim, pos,
+                                         units::MevEnergy{edep},
+                                         sp->host_ref(), pre);
+                try
+                {
+                    auto d = off(rng);
+                    print_dist(d, rng.consumed(), false);
+                    if (d)
+                    {
+                        ScintillationGenerator gen(sp->host_ref(), d);
+                        run_photons(gen, std::min(maxphot, d.num_photons), rng, " |");
+                    }
+                    else
+                    {
+                        std::cout << " | 0 0\n";
+                    }
+                }
+                catch (verif::StreamExhausted const&)
+                {
                     std::cout << "exhausted " << hex(particle.speed().value())
                               << "\n";
                 }
